@@ -160,6 +160,9 @@ func Note(site int, kind string, obj any, owner any, val string) {
 	s.Log = append(s.Log, Event{s.cur.ID, site, kind, s.ObjID(obj), s.ObjID(owner), val})
 }
 
+// Plain logs a plain (non-atomic) access to a watched field of owner; kind is "R" or "W".
+func Plain(site int, owner any, kind string) { Note(site, "plain"+kind, owner, nil, "") }
+
 func Enter(site int, recv any) int {
 	Note(site, "enter", recv, nil, "")
 	return site
